@@ -197,7 +197,103 @@ class RejTemporary(cohdl.Entity):
             self.o <<= t              # intermediate crosses a state boundary
 
 
+# ---- designs through the call / return / sub-coroutine paths of the IR generator (class-level collectors for returned,
+# breaking and continuing blocks), accepted and rejected in the middle of such a call
+class FnReturn(cohdl.Entity):
+    clk = Port.input(Bit)
+    a = Port.input(Bit)
+    sel = Port.input(Unsigned[2])
+    o = Port.output(Unsigned[2], default=0)
+
+    def architecture(self):
+        def pick(x):
+            if self.a:
+                return x + 1
+            match x:
+                case 0:
+                    return x + 2
+                case _:
+                    return x - 1
+
+        def on_rst():
+            self.o <<= 2
+
+        @std.sequential(std.Clock(self.clk), std.Reset(self.a), on_reset=on_rst)
+        def proc():
+            self.o <<= pick(self.sel)
+
+
+class SubCoro(cohdl.Entity):
+    clk = Port.input(Bit)
+    a = Port.input(Bit)
+    b = Port.input(Bit)
+    o = Port.output(Unsigned[2], default=0)
+
+    def architecture(self):
+        async def scan(x, y):
+            while x:
+                self.o <<= self.o + 1
+                if y:
+                    return
+            self.o <<= 3
+
+        @std.sequential(std.Clock(self.clk))
+        async def proc():
+            while True:
+                await scan(self.a, self.b)
+                self.o <<= 0
+                if self.b:
+                    break
+            await self.a
+
+
+class RejInSubCoro(cohdl.Entity):
+    clk = Port.input(Bit)
+    a = Port.input(Bit)
+    o = Port.output(Bit, default=False)
+
+    def architecture(self):
+        async def bad(x):
+            while x:
+                if self.o:
+                    continue          # continue in the first state of a loop, inside an awaited sub-coroutine
+                await x
+            return
+
+        @std.sequential(std.Clock(self.clk))
+        async def proc():
+            while True:
+                self.o <<= self.a
+                await bad(self.a)
+                if self.a:
+                    break
+
+
+class RejInCall(cohdl.Entity):
+    clk = Port.input(Bit)
+    a = Port.input(Bit)
+    o = Port.output(Bit, default=False)
+
+    def architecture(self):
+        def inner(x):
+            t = x & self.o
+            if x:
+                return t
+            t = ~x                    # assignment to an already used name, two calls deep
+            return t
+
+        def outer(x):
+            if self.o:
+                return inner(x)
+            return x
+
+        @std.sequential(std.Clock(self.clk))
+        def proc():
+            self.o <<= outer(self.a)
+
+
 ALPHABET = {
+    "fn_return": (FnReturn, {}), "sub_coro": (SubCoro, {}), "rej_in_subcoro": (RejInSubCoro, {}), "rej_in_call": (RejInCall, {}),
     "comb": (Comb, {}), "coro": (Coro, {}), "prefix": (Prefix, {}), "hier": (Hier, {}), "fifo": (FifoUser, {}),
     "reserved_opt": (Comb, {"additional_reserved_names": {"ready", "level", "proc"}}), "enum_match": (EnumMatch, {}),
     "rej_arch": (RejArch, {}), "rej_trace": (RejTrace, {}), "rej_statemachine": (RejStatemachine, {}),
